@@ -58,7 +58,7 @@ class _VSelector(selectors.DefaultSelector):  # type: ignore[misc,valid-type]
         if timeout is not None and timeout <= 0:
             # busy iteration
             loop._spin += 1
-            if loop._spin >= SPIN_N:
+            if loop._spin >= loop.spin_n:
                 loop._spin = 0
                 nxt = loop._next_timer()
                 if nxt is not None and nxt > loop._vtime:
@@ -66,7 +66,7 @@ class _VSelector(selectors.DefaultSelector):  # type: ignore[misc,valid-type]
                     loop.spin_jumps += 1
                 elif nxt is None and loop.livelock_is_deadlock:
                     loop._livelock_runs += 1
-                    if loop._livelock_runs * SPIN_N >= loop.livelock_ticks:
+                    if loop._livelock_runs * loop.spin_n >= loop.livelock_ticks:
                         raise Deadlock(f"livelock: loop busy for {loop.livelock_ticks} iterations with no timer pending" + _task_dump(loop))
             return events
         loop._spin = 0
@@ -92,6 +92,7 @@ class VLoop(asyncio.SelectorEventLoop):
         self.ticks = 0
         self.max_ticks = 2_000_000
         self.spin_jumps = 0
+        self.spin_n = SPIN_N  # busy iterations without time advancing before the clock jumps to the next timer
         self._spin = 0
         self._livelock_runs = 0
         self._tick_hooks: dict[int, list[Callable[[], None]]] = {}
@@ -131,6 +132,7 @@ def run_virtual(
     max_ticks: int = 2_000_000,
     real_wait_s: float = 0.0,
     debug: bool = False,
+    spin_n: int | None = None,
 ) -> Any:
     """Run `main(*args)` to completion on a fresh VLoop.  Raises Deadlock if it cannot complete.
     The loop object is available inside as asyncio.get_running_loop()."""
@@ -139,6 +141,8 @@ def run_virtual(
         loop = VLoop()
         loop.max_ticks = max_ticks
         loop.real_wait_s = real_wait_s
+        if spin_n is not None:
+            loop.spin_n = spin_n
         return loop
 
     runner = asyncio.Runner(loop_factory=factory, debug=debug)
